@@ -5,12 +5,16 @@ void runLoadDump(const Opts&, long, CaseLog&);
 void runGenerations(const Opts&, long, CaseLog&);
 void runResidue(const Opts&, long, CaseLog&);
 void runC12Api(const Opts&, long, CaseLog&);
+void runFaults(const Opts&, long, CaseLog&);
+void runPlainSave(const Opts&, long, CaseLog&);
 int modeMain(const Opts& o) {
     if (o.mode == "hist") return runCases(o, runHistCase);
     if (o.mode == "loaddump") return runCases(o, runLoadDump);
     if (o.mode == "gens") return runCases(o, runGenerations);
     if (o.mode == "residue") return runCases(o, runResidue);
     if (o.mode == "c12api") return runCases(o, runC12Api);
+    if (o.mode == "faults") return runCases(o, runFaults);
+    if (o.mode == "plainsave") return runCases(o, runPlainSave);
     fprintf(stderr, "unknown mode %s\n", o.mode.c_str());
     return 2;
 }
